@@ -1,6 +1,6 @@
 """Which units decide which property (DESIGN.md sections 1, 5)."""
 
-VERUS_UNITS = ['U-FMT']
+VERUS_UNITS = ['U-FMT', 'U-REACH']
 
 PROPS = {
     'C15': {
@@ -18,5 +18,20 @@ PROPS = {
             'extraction rules R0-R2, R6 (listed with match counts in coverage.units[].extraction_rules_applied) preserve meaning',
         ],
         'not_covered': [],
+    },
+    'C08': {
+        'level': 'proof',
+        'verus': ['U-REACH'],
+        'kani': [],
+        'trusted_base': ['Verus 0.2026.09.13, Z3, rustc 1.98.1'],
+        'assumptions': [
+            'precondition closed(R): every id mentioned by a registry entry resolves (DESIGN.md section 3 clause 2)',
+        ],
+        'not_covered': [
+            'merging the id sets into the path-keyed derive map (flatten_recursive_derives lines 94-143: syn + HashMap)',
+            'resolution default + specific by path (FlatDerivesRegistry::resolve)',
+            'derive/attribute token emission (Derives::to_tokens)',
+            'that create_type_ir / upcast_composite call the CompactAs predicate and insert the configured path',
+        ],
     },
 }
